@@ -251,6 +251,7 @@ fn exec(spec: &ProgSpec, steps: u32, rec: &mut Rec, counting: bool) -> CaseResul
             rec.nontrivial(fnv(format!("{:?}", spec).as_bytes()));
         }
         rec.class("steps-executed", st.steps_done as u64);
+        rec.sample(|| case_json(spec, steps));
     }
     r
 }
